@@ -297,7 +297,7 @@ def forced_zeros(L, A):
         w, U = sl.eigh(H, None if A is None else (A + A.conj().T) / 2)
     except Exception:
         return np.zeros(n, dtype=bool)
-    width = max(float(w[-1] - w[0]), 1e-300)
+    width = max(float(np.median(np.abs(w))), 1e-300)      # not the spectral width: one 1e8 weight would swamp it
     sel = (w - w[0]) <= 1e-6 * width
     amp = np.sqrt(np.sum(np.abs(U[:, sel]) ** 2, axis=1))
     # dense eigenvectors carry an error ~ eps * |H| / gap (cotangent weights of 1e8 occur on right-angled pairs)
